@@ -7,6 +7,10 @@ use redirectionio::filter::FilterBodyAction;
 use redirectionio::http::Header;
 use serde_json::{json, Value};
 
+// bulk feed for the extracted model (mlrun/bodyrun): a child module, so that it runs this module's private `run_chunks`
+#[path = "bulk03.rs"]
+pub mod bulk03;
+
 pub fn to_filters(fs: &Value) -> Vec<BodyFilter> {
     fs.as_array().unwrap().iter().map(|f| {
         if f["kind"] == "text" {
@@ -148,6 +152,10 @@ pub fn serialize(n: &Node, out: &mut String) {
 }
 const ATTRS: &[&str] = &["", " class=\"a\"", " id='x y'", " data-k=v", " title=\"a>b\"", " hidden", " a=\"1\" b='2' c=3"];
 const TEXTS: &[&str] = &["hello", " ", "a &amp; b", "x > y", "caf\u{e9} \u{1f918}", "line\nbreak", "1 &lt; 2"];
+/// texts with a literal '<' (the filter loop looks ahead after such a text): not in the C15 stream, whose domain is
+/// "texts without '<'" (C15_generated)
+const TEXTS_LT: &[&str] = &["if 1 < 2 then", "x <- y", "a<<", "<", "2 <3 ", "p < q > r"];
+static ALLOW_LT: std::sync::atomic::AtomicBool = std::sync::atomic::AtomicBool::new(false);
 const COMMENTS: &[&str] = &[" c ", "</body>", "<p>", " a -- b ", ""];
 const RAWTEXTS: &[&str] = &["a </head> b", "x </body> y <p>", "</main></article>", "<b>bold</b> &amp; </html>", "plain"];
 const SCRIPTS: &[&str] = &["var a = 1;", "if (a < b) { x(); }", "document.write('</p><body>');", "<!-- x -->", "a<b"];
@@ -155,7 +163,7 @@ const FILLER_TAGS: &[&str] = &["span", "em", "section", "li", "P", "DIV2"];
 
 fn gen_filler(rng: &mut Rng, depth: usize) -> Node {
     match rng.below(if depth == 0 { 6 } else { 9 }) {
-        0 | 1 => Node::Text(rng.pick(TEXTS).to_string()),
+        0 | 1 => { if ALLOW_LT.load(std::sync::atomic::Ordering::Relaxed) && rng.chance(1, 4) { Node::Text(rng.pick(TEXTS_LT).to_string()) } else { Node::Text(rng.pick(TEXTS).to_string()) } }
         2 => Node::Comment(rng.pick(COMMENTS).to_string()),
         3 => { let tag = *rng.pick(&["script", "style", "script", "style", "title", "textarea", "noscript", "xmp", "iframe", "title\n", "script ", "textarea\t", "TITLE"]); let txt = if tag.trim() == "script" || tag == "style" { *rng.pick(SCRIPTS) } else { *rng.pick(RAWTEXTS) }; Node::Raw(tag.into(), txt.to_string()) }
         4 => Node::Void(rng.pick(&["br", "img", "meta", "hr"]).to_string(), rng.pick(ATTRS).to_string()),
@@ -242,6 +250,7 @@ fn gen_filters(rng: &mut Rng, path: &[String], insert_only: bool, values: &mut V
 }
 
 pub fn generate(prop: &str, seed: u64, thorough: bool) -> Vec<Value> {
+    ALLOW_LT.store(prop != "C15", std::sync::atomic::Ordering::Relaxed);
     let mut out = Vec::new();
     match prop {
         "C15" => {
